@@ -1,3 +1,4 @@
 //! Reference models written independently of Humphrey.
+pub mod glob;
 pub mod http;
 pub mod ws;
